@@ -600,10 +600,15 @@ func (c *fnCtx) execBlock(b *ssa.BasicBlock, st *State) {
 
 // fireAnchors evaluates snap/assert/assume clauses anchored at the source line of in.
 func (c *fnCtx) fireAnchors(st *State, b *ssa.BasicBlock, in ssa.Instruction) {
-	if c.con == nil || len(c.con.Asserts) == 0 || !in.Pos().IsValid() {
+	if c.con == nil || len(c.con.Asserts) == 0 {
 		return
 	}
-	line := c.sourceLine(in.Pos())
+	line := ""
+	if in.Pos().IsValid() {
+		line = c.sourceLine(in.Pos())
+	} else if _, isRet := in.(*ssa.Return); isRet {
+		line = "}" // the implicit return at the end of the function body
+	}
 	if line == "" {
 		return
 	}
@@ -625,7 +630,10 @@ func (c *fnCtx) fireAnchors(st *State, b *ssa.BasicBlock, in ssa.Instruction) {
 			continue
 		}
 		// n-th distinct matching source line
-		ln := c.g.prog.Fset.Position(in.Pos()).Line
+		ln := -1
+		if in.Pos().IsValid() {
+			ln = c.g.prog.Fset.Position(in.Pos()).Line
+		}
 		seen := c.anchorLines[i]
 		found := false
 		for _, l := range seen {
